@@ -5,12 +5,17 @@ Line-protocol driver for C13.
 
 Ops
 * `sub <exchange> <kind> <inst>*` — `kind ∈ {trades,l1,l2,liqs}`; `inst = base:quote:S | base:quote:P |
-  base:quote:F<yyyymmdd> | base:quote:O<yyyymmdd>:<strike>:<C|P>`; the k-th instrument has key k.
+  base:quote:F<yyyymmdd> | base:quote:O<yyyymmdd>:<strike>:<C|P>` (formatted from the underlying:
+  `Subscription<_, Keyed<usize, MarketDataInstrument>, _>`) or `@<name_exchange>:S | …:P | …:F<yyyymmdd> |
+  …:O<yyyymmdd>:<strike>:<C|P>` (verbatim: `Subscription<_, MarketInstrumentData<usize>, _>`); one `sub`
+  line is all-formatted or all-verbatim (a Rust subscription list has one instrument type); the k-th
+  instrument has key k.
 * `conf <channel> <symbol> <chanId>` — Bitfinex `subscribed` confirmation.
 * `msg <channel> <symbol> <chanId> <item>*` — `item = price:amount:<b|s>:time_ms`.
 
 Observations (model): `map k=id …` after `sub`/`conf`; after `msg`: `nev n`, then per event
-`ev key exchange time` + one of `trade px |amt| side` & `amt a` / `l1 bp ba ap aa` / `l2 b p a … a p a …`
+`ev key exchange time` + one of `trade px |amt| side` & `amt a` & `sgn neg|zero|pos` (sign of
+`PublicTrade.amount` as produced; the spec is silent on it) / `l1 bp ba ap aa` / `l2 b p a … a p a …`
 / `liq px qty side`, or `err unidentifiable` & `errid id`. The spec prints the subset the property
 constrains.
 -/
@@ -67,9 +72,39 @@ def parseInst (s : String) : Option Inst :=
     else none
   | _ => none
 
+/-- `@<name_exchange>:<kind…>`: the verbatim representation (`MarketInstrumentData`) -/
+def parseVerbatim (s : String) : Option InstRep :=
+  if !s.startsWith "@" then none else
+  match (s.drop 1).toString.splitOn ":" with
+  | [n, "S"] => some (.verbatim n.toList .spot)
+  | [n, "P"] => some (.verbatim n.toList .perpetual)
+  | [n, f] =>
+    if f.startsWith "F" then (parseDate (f.drop 1).toString).map fun d => .verbatim n.toList (.future d)
+    else none
+  | [n, o, k, c] =>
+    if o.startsWith "O" then do
+      let d ← parseDate (o.drop 1).toString
+      let k ← k.toNat?
+      let c ← (match c with | "C" => some true | "P" => some false | _ => none)
+      some (.verbatim n.toList (.option d k c))
+    else none
+  | _ => none
+
+def parseRep (s : String) : Option InstRep :=
+  if s.startsWith "@" then parseVerbatim s else (parseInst s).map .formatted
+
+def isVerbatim : InstRep → Bool
+  | .verbatim _ _ => true
+  | .formatted _ => false
+
 def parseAll {α β} (f : α → Option β) : List α → Option (List β)
   | [] => some []
   | x :: xs => do let y ← f x; let ys ← parseAll f xs; some (y :: ys)
+
+/-- the instruments of one `sub` line: all formatted or all verbatim -/
+def parseReps (toks : List String) : Option (List InstRep) := do
+  let rs ← parseAll parseRep toks
+  if rs.all isVerbatim || rs.all (fun r => !isVerbatim r) then some rs else none
 
 def parseItem (s : String) : Option Item :=
   match s.splitOn ":" with
@@ -112,6 +147,7 @@ def fmtEvent (ev : Event) : List String :=
   -- `dk <name> 1`: converted to `MarketEvent<_, DataKind>` (event.rs `From` impls) the event is of its own
   -- kind (`DataKind::kind_name`) and the accessor of that kind hands back the same event
   | .trade p a s => ["trade " ++ fmtRat p ++ " " ++ fmtRat (absR a) ++ " " ++ sideStr s, "amt " ++ fmtRat a,
+                     "sgn " ++ (if a < 0 then "neg" else if a = 0 then "zero" else "pos"),
                      "dk public_trade 1"]
   | .l1 b a => ["l1 " ++ fmtLevel b ++ " " ++ fmtLevel a, "dk l1 1"]
   | .l2 bs as => ["l2 b " ++ fmtLevels bs ++ " a " ++ fmtLevels as, "dk l2 1"]
@@ -133,9 +169,9 @@ def model : Drv St where
   step s toks :=
     match toks with
     | "sub" :: e :: k :: insts =>
-      match parsePair e k, parseAll parseInst insts with
+      match parsePair e k, parseReps insts with
       | some p, some subs =>
-        let m := mapOf p subs
+        let m := mapOfR p subs
         (⟨some p, m⟩, [fmtMap m])
       | _, _ => (s, ["bad-op"])
     | ["conf", chan, mkt, cid] =>
@@ -168,7 +204,7 @@ def model : Drv St where
 
 structure SpecSt where
   pair : Option Pair := none
-  subs : List Inst := []
+  subs : List InstRep := []
   confs : List (Str × Nat) := []
 
 /-- venues whose trade payload carries the symbol per trade: an empty message names no market -/
@@ -215,7 +251,7 @@ def spec : Drv SpecSt where
   step s toks :=
     match toks with
     | "sub" :: e :: k :: insts =>
-      match parsePair e k, parseAll parseInst insts with
+      match parsePair e k, parseReps insts with
       | some p, some subs => (⟨some p, subs, []⟩, [])
       | _, _ => (s, ["bad-op"])
     | ["conf", _, mkt, cid] =>
@@ -235,7 +271,7 @@ def spec : Drv SpecSt where
         match symbol with
         | none => (s, ["nev 1", "err unidentifiable"])
         | some m =>
-          match specVerdict p.exch s.subs m with
+          match specVerdictR p.exch s.subs m with
           | .rejected => (s, ["nev 1", "err unidentifiable"])
           | .attributed key => (s, specEvents p key msg)
           | .ambiguous => (s, [])
